@@ -278,6 +278,8 @@ func c10Body(sc c10Scn, tracing bool, res *string) func(x *sched.Exec) {
 						_ = rs.Resource()
 						_ = rs.InstrumentationScope()
 						_ = rs.DroppedAttributes() + rs.DroppedEvents() + rs.DroppedLinks() + rs.ChildSpanCount()
+					case "AttrBad": // one attribute that is kept and one that is dropped (no key): the drop is part of the same mutation
+						sp.SetAttributes(attribute.Int("m", 7), attribute.KeyValue{Key: "", Value: attribute.IntValue(9)})
 					case "AttrDup": // the same keys again: the getter still lists each key once
 						sp.SetAttributes(attribute.Int("k", 3), attribute.Int("k", 4), attribute.Int("l", 5))
 					case "Unreg2":
@@ -414,6 +416,12 @@ func c10Body(sc c10Scn, tracing bool, res *string) func(x *sched.Exec) {
 			if has("k=1") != has("l=2") {
 				x.Fail("C10|torn-mutation|SetAttributes", "SetAttributes(k,l) only partly present in the snapshot: %s", r)
 			}
+			if sc.name[0] == 'X' && has("m=7") != has(" dropped=1/") {
+				x.Fail("C10|torn-mutation|SetAttributes|kept attribute without the drop count of the same call", "SetAttributes(m=7, <attribute without key>) only partly present in the snapshot: %s", r)
+			}
+			if sc.name[0] == 'I' && !has(" dropped=0/") && !has(" dropped=2/") {
+				x.Fail("C10|torn-mutation|SetAttributes|drop count of an over-limit call only partly present", "limit 1 reached, SetAttributes(k,l) drops both or came too late: %s", r)
+			}
 			if has("event(e:") && !has("event(e:[ea=1,eb=2])") {
 				x.Fail("C10|torn-mutation|AddEvent", "event present without all its attributes: %s", r)
 			}
@@ -475,6 +483,7 @@ func c10Jobs(thorough, race bool) []c10Job {
 		{"Q-atlimit-attr-vs-attributes-of-another-span", [][]string{{"Attr", "End"}, {"Span2Same"}}, true, ""},
 		{"U-children-and-a-new-root-started-under-the-span", [][]string{{"Child", "NewRoot"}, {"NewRoot", "End"}}, false, ""},
 		{"V-tracer-lookups-from-three-threads", [][]string{{"TracerA0", "End"}, {"TracerA1"}, {"TracerB"}}, false, ""},
+		{"X-end-vs-a-call-that-keeps-one-attribute-and-drops-one", [][]string{{"End"}, {"AttrBad"}}, false, ""},
 		{"W-onend-touches-the-span-it-is-given", [][]string{{"End"}, {"IsRec", "Attr"}}, false, "reentrant-self"},
 		{"T-getters-of-the-live-span-vs-mutators", [][]string{{"Attr", "AttrDup"}, {"Getters", "Getters"}, {"Event", "EndTS"}}, false, ""},
 		{"R-onend-ends-a-span-itself-vs-unregister-of-another-processor", [][]string{{"End"}, {"Unreg2"}}, false, "reentrant"},
